@@ -346,7 +346,7 @@ def extra_arms(prop, tier, seed, cov, violations, inconcl, notes, arms_used, env
             os.unlink(pp)
         else:
             inconcl.append('constant-evaluator arm: no points file')
-    if prop not in ('C07', 'C08') and os.environ.get('VERIF_FUZZ', '1') != '0':
+    if prop != 'C08' and os.environ.get('VERIF_FUZZ', '1') != '0':
         fuzz_arm(prop, tier, seed, cov, violations, inconcl, notes, arms_used)
     if tier == 'thorough' or os.environ.get('VERIF_REACH') == '1':
         reach_arm(prop, tier, seed, cov, inconcl, notes, arms_used)
@@ -448,8 +448,9 @@ def reach_arm(prop, tier, seed, cov, inconcl, notes, arms_used):
         r = V.run([exe, prop, 'quick', str(seed), out, '--threads', str(V.NCPU), '--scale', '0.05', so], timeout=1800)
         if r.returncode != 0:
             raise V.Inconclusive('coverage monitor run failed: ' + r.stderr[-800:])
-        gc = V.run(['gcov', '--json-format', '--stdout'] + [o[:-2] + '.gcda' for o in objs], cwd=d)
+        gc = V.run(['gcov', '--json-format', '--stdout', '--branch-probabilities'] + [o[:-2] + '.gcda' for o in objs], cwd=d)
         per_file = {}
+        per_file_br = {}
         for doc in re.findall(r'^\{.*\}$', gc.stdout, re.M):
             try:
                 j = json.loads(doc)
@@ -459,8 +460,13 @@ def reach_arm(prop, tier, seed, cov, inconcl, notes, arms_used):
                 if '/fixed_lib/' not in os.path.abspath(os.path.join(d, f['file'])):
                     continue
                 m = per_file.setdefault(os.path.abspath(os.path.join(d, f['file'])), {})
+                mb = per_file_br.setdefault(os.path.abspath(os.path.join(d, f['file'])), {})
                 for ln in f['lines']:
                     m[ln['line_number']] = m.get(ln['line_number'], 0) + ln['count']
+                    br = [b['count'] for b in ln.get('branches', []) if not b.get('throw')]
+                    if br:
+                        old = mb.get(ln['line_number'])
+                        mb[ln['line_number']] = [x + y for x, y in zip(old, br)] if old and len(old) == len(br) else br
         reach = {}
         for header in ANCHORS.get(prop, []):
             found = False
@@ -474,7 +480,11 @@ def reach_arm(prop, tier, seed, cov, inconcl, notes, arms_used):
                 found = True
                 exe_lines = [n for n in counts if loc[0] <= n <= loc[1]]
                 hit = [n for n in exe_lines if counts[n] > 0]
+                brs = {n: b for n, b in per_file_br.get(path, {}).items() if loc[0] <= n <= loc[1]}
+                nb = sum(len(b) for b in brs.values())
+                nt = sum(1 for b in brs.values() for x in b if x > 0)
                 reach[header.strip()] = {'file': os.path.relpath(path, V.REPO), 'lines': f'{loc[0]}-{loc[1]}', 'executable_lines': len(exe_lines), 'lines_hit': len(hit),
+                                         'branch_outcomes': nb, 'branch_outcomes_taken': nt, 'lines_with_untaken_outcome': sorted(n for n, b in brs.items() if any(x == 0 for x in b))[:20],
                                          'max_count': max((counts[n] for n in exe_lines), default=0), 'never_executed_lines': sorted(set(exe_lines) - set(hit))[:20]}
                 if not hit:
                     notes.append(f'reach: anchored function "{header.strip()}" was never executed by the {prop} workload (dead after a refactoring, or unreached)')
@@ -525,7 +535,9 @@ def build_fuzz():
 def fuzz_arm(prop, tier, seed, cov, violations, inconcl, notes, arms_used):
     arms_used.append('coverage-guided-fuzz')
     exe = build_fuzz()
-    wd = os.path.join(V.CACHE, 'run', f'fuzz-{prop}-{os.getpid()}')
+    # libFuzzer writes every new corpus unit as a file: keep the transient corpus in memory-backed storage when available
+    base_tmp = '/dev/shm' if os.path.isdir('/dev/shm') and os.access('/dev/shm', os.W_OK) else os.path.join(V.CACHE, 'run')
+    wd = os.path.join(base_tmp, f'verif-fuzz-{prop}-{os.getpid()}')
     shutil.rmtree(wd, ignore_errors=True)
     os.makedirs(os.path.join(wd, 'seeds'))
     known = os.path.join(wd, 'known.txt')
@@ -536,7 +548,7 @@ def fuzz_arm(prop, tier, seed, cov, violations, inconcl, notes, arms_used):
     # inputs per process; the judges of C01/C16/C17 make 50-100 library calls per input
     # inputs per process: (quick, thorough). The judges of C01/C16/C17 make 50-100 library calls per input, the others a handful.
     budget = {'C01': (35000, 250000), 'C16': (20000, 150000), 'C17': (70000, 500000), 'C02': (100000, 700000), 'C04': (100000, 700000),
-              'C03': (300000, 2000000), 'C05': (400000, 2500000)}.get(prop, (1000000, 5000000))
+              'C03': (300000, 2000000), 'C05': (400000, 2500000), 'C07': (100000, 3000000)}.get(prop, (1000000, 5000000))
     runs = int(float(os.environ.get('VERIF_FUZZ_RUNS', str(budget[1] if tier == 'thorough' else budget[0]))) * float(os.environ.get('VERIF_SCALE', '1')))
     nproc = V.NCPU
     env = dict(os.environ, VERIF_FUZZ_PROP=prop, VERIF_FUZZ_KNOWN=known, ASAN_OPTIONS=ASAN_OPTS + ':abort_on_error=1', UBSAN_OPTIONS='print_stacktrace=0')
@@ -586,18 +598,34 @@ def fuzz_arm(prop, tier, seed, cov, violations, inconcl, notes, arms_used):
                     rec.update({'check_index': data[0], 'a': a, 'b': b, 'c': c})
             found.append(rec)
     classes = {}
+    check_names = list((cov.get('check_docs') or {}).keys())
+    replayed = set()
     for f in found:
+        keys = []
         if f.get('key'):
-            key = f['key']
+            keys = [f['key']]
         else:
-            site = re.sub(r'0x[0-9a-f]+', '', f.get('sanitizer', ''))
-            site = re.sub(r':\d+:\d+', '', site)
-            key = f'fuzz/{prop}/sanitizer-or-crash/{site.strip()[:120]}'
-        c = classes.setdefault(key, {'key': key, 'count': 0, 'per_cfg': {'clang-fuzz-asan-ubsan': 0}, 'witnesses': [], 'arm': 'fuzz'})
-        c['count'] += 1
-        c['per_cfg']['clang-fuzz-asan-ubsan'] += 1
-        if len(c['witnesses']) < 4:
-            c['witnesses'].append({k: v for k, v in f.items() if k != 'key'})
+            # sanitizer abort / crash in the instrumented library: re-judge the decoded arguments in the ordinary configurations
+            if 'check_index' in f and check_names:
+                f['check'] = check_names[f['check_index'] % len(check_names)]
+                sig = (f['check'], f['a'], f['b'], f['c'])
+                if sig not in replayed and len(replayed) < 8:
+                    replayed.add(sig)
+                    try:
+                        rr = V.run_monitor(prop, tier, seed, V.configs_for(prop, 'quick'), ['--replay', f['check'], str(f['a']), str(f['b']), str(f['c'])])
+                        keys = [v['key'] for v in rr['violations']]
+                    except V.Inconclusive:
+                        keys = []
+            if not keys:
+                site = re.sub(r'0x[0-9a-f]+', '', f.get('sanitizer', ''))
+                site = re.sub(r':\d+:\d+', '', site)
+                keys = [f'fuzz/{prop}/sanitizer-or-crash/{site.strip()[:120]}']
+        for key in keys:
+            c = classes.setdefault(key, {'key': key, 'count': 0, 'per_cfg': {'clang-fuzz-asan-ubsan': 0}, 'witnesses': [], 'arm': 'fuzz'})
+            c['count'] += 1
+            c['per_cfg']['clang-fuzz-asan-ubsan'] += 1
+            if len(c['witnesses']) < 4:
+                c['witnesses'].append({k: v for k, v in f.items() if k != 'key'})
     for c in classes.values():
         violations.append(c)
     if total_exec == 0:
